@@ -136,7 +136,7 @@ def _poly(power):
     return f
 
 
-REFS["poly2"], REFS["poly3"] = _poly(2), _poly(3)
+REFS["poly2"], REFS["poly3"], REFS["poly4"] = _poly(2), _poly(3), _poly(4)
 
 
 def _pp(q):
@@ -313,16 +313,17 @@ def composition(S, n1, n2, d):
     S.prove_eq(out, R, "composition")
 
 
-def grad_kernel(S, which, n1, n2, d):
+def grad_kernel(S, which, n1, n2, d, ard=False, power=2):
     """derivative kernels: blocks in the documented per-point interleaved layout = partial derivatives of the base kernel"""
+    ad = d if ard else None
     if which == "rbf_grad":
-        k, base = K.RBFKernelGrad(), "rbf"
+        k, base = K.RBFKernelGrad(ard_num_dims=ad), "rbf"
     elif which == "matern52_grad":
-        k, base = K.Matern52KernelGrad(), "matern25"
+        k, base = K.Matern52KernelGrad(ard_num_dims=ad), "matern25"
     elif which == "poly_grad":
-        k, base = K.PolynomialKernelGrad(power=2), "poly2"
+        k, base = K.PolynomialKernelGrad(power=power), "poly%d" % power
     elif which == "rbf_gradgrad":
-        k, base = K.RBFKernelGradGrad(), "rbf"
+        k, base = K.RBFKernelGradGrad(ard_num_dims=ad), "rbf"
     for prm in k.parameters():
         prm.requires_grad_(False)
     declare_params(S, k, "p_", scale=0.4)
@@ -383,6 +384,9 @@ def scenarios(tier, seed):
         add("grad_kernel", which="matern52_grad", n1=2, n2=1, d=1)
         add("grad_kernel", which="poly_grad", n1=2, n2=3, d=2)
         add("grad_kernel", which="rbf_gradgrad", n1=1, n2=2, d=1)
+        add("grad_kernel", which="rbf_gradgrad", n1=2, n2=1, d=2, ard=True)
+        add("grad_kernel", which="rbf_grad", n1=1, n2=2, d=2, ard=True)
+        add("grad_kernel", which="poly_grad", n1=2, n2=1, d=2, power=3)
     else:
         for s in specs:
             for (n1, n2) in [(2, 3), (3, 2), (1, 2)]:
@@ -402,4 +406,8 @@ def scenarios(tier, seed):
                           ("poly_grad", [(2, 3, 2), (3, 2, 1)]), ("rbf_gradgrad", [(1, 2, 1), (2, 1, 2)])):
             for (n1, n2, d) in shapes:
                 add("grad_kernel", which=w, n1=n1, n2=n2, d=d)
+                if d > 1 and w != "poly_grad":
+                    add("grad_kernel", which=w, n1=n1, n2=n2, d=d, ard=True)
+        add("grad_kernel", which="poly_grad", n1=2, n2=1, d=2, power=3)
+        add("grad_kernel", which="poly_grad", n1=1, n2=2, d=1, power=4)
     return out
